@@ -191,6 +191,21 @@ def body_after(src, pattern, what):
     return src[i + 1:_match_paren(src, i, '{', '}') - 1]
 
 
+WIDTHS = {'qint8': 8, 'signed char': 8, 'int8_t': 8, 'qint16': 16, 'short': 16, 'int16_t': 16, 'int': 32, 'qint32': 32, 'int32_t': 32,
+          'qint64': 64, 'qlonglong': 64, 'long long': 64, 'int64_t': 64, 'qintptr': 64, 'qptrdiff': 64, 'long': 64}
+
+
+def counter_bits(s):
+    """width of the signed machine integer behind m_pendingCount (QAtomicInt = QAtomicInteger<int>)"""
+    m = need(re.search(r'\n\s*([\w:]+(?:\s*<[^;>]*>)?)\s+m_pendingCount\s*(?:\{[^}]*\}|=\s*[^;]+)?;', s), 'member m_pendingCount')
+    ty = re.sub(r'\s+', ' ', m.group(1)).strip()
+    if ty == 'QAtomicInt':
+        return 32
+    t = need(re.match(r'^(?:QAtomicInteger|QBasicAtomicInteger|std::atomic)\s*<\s*([\w ]+?)\s*>$', ty), 'member m_pendingCount: an atomic SIGNED integer, found `%s`' % ty)
+    need(t.group(1) in WIDTHS, 'member m_pendingCount: signed integer type of known width, found `%s`' % t.group(1))
+    return WIDTHS[t.group(1)]
+
+
 def generate():
     s = strip_comments(rd('ownthreadhandler.h'))
     need(re.search(r'template<typename BaseHandler>\s*class \w* ?OwnThreadHandler : public BaseHandler', s),
@@ -201,7 +216,7 @@ def generate():
     proc = skeleton_of(body_after(s, r'\bbool process\s*\(', 'OwnThreadHandler::process()'))
     cust = skeleton_of(body_after(s, r'\bvoid customEvent\s*\(', 'Worker::customEvent()'))
     # the members the model speaks about
-    need(re.search(r'QAtomicInt m_pendingCount;', s), 'member m_pendingCount')
+    bits = counter_bits(s)
     need(re.search(r'QMutex m_mutex;', s), 'member m_mutex (plain, non-recursive)')
     need(re.search(r'Worker \*m_worker = nullptr;', s), 'member m_worker')
     need(re.search(r'QPointer<QThread> m_thread;', s), 'member m_thread (QPointer)')
@@ -216,4 +231,5 @@ def generate():
     out += 'Definition src_skeleton : skeleton := {|\n'
     out += '  sk_reset := %s;\n  sk_move := %s;\n  sk_dtor := %s;\n  sk_process := %s;\n  sk_custom_event := %s |}.\n' % (
         reset, move, dtor, proc, cust)
+    out += '(* bits of the signed machine integer that holds m_pendingCount *)\nDefinition src_counter_bits : nat := %d.\n' % bits
     return {'SrcShutdown.v': out}
